@@ -2,7 +2,7 @@
 CONTRACTS = {}
 
 
-def contract(name, props, functions, domain, bound=None, tier="quick", assumes=(), covers=(), chain=(), weight=1):
+def contract(name, props, functions, domain, bound=None, tier="quick", assumes=(), covers=(), chain=(), weight=1, shards=1):
     """Register `fn(h)` as the contract harness `name`.
 
     props: property ids whose verdict uses this contract's obligations
@@ -25,6 +25,7 @@ def contract(name, props, functions, domain, bound=None, tier="quick", assumes=(
             "covers": list(covers),
             "chain": list(chain),
             "weight": weight,
+            "shards": shards,
         }
         return fn
 
